@@ -738,6 +738,23 @@ fn corpus(ctx: &mut GenCtx) {
         ctx.emit(&render("11", "0", dir, "2", &crate::warmup()));
         ctx.stats.bump("corpus");
     }
+    // the kernel-checked witnesses of Props/C12.lean that need an option: i18nGood / i18nBad (rdf_direction = i18n-datatype),
+    // compoundShape and a dataset without rdf:direction (compound-literal), and the one-byte IRI of
+    // no_panic_needs_absolute_iris (out of domain: model and implementation must agree on the panic)
+    let lit = |l: &str, d: &str| T::Lit(l.to_string(), d.to_string());
+    let b = bn("b");
+    let i18n_good = vec![q(&s, &p, &lit("x", &format!("{}en_ltr", I18N)), &None), q(&s, &p, &T::Lang("y".into(), "fr".into()), &g1)];
+    let i18n_bad = vec![q(&s, &p, &lit("x", &format!("{}_rtl", I18N)), &None)];
+    let compound = vec![q(&s, &p, &b, &None), q(&b, &rdf("value"), &plain("v"), &None), q(&b, &rdf("direction"), &plain("rtl"), &None)];
+    let no_direction = vec![q(&s, &p, &b, &None), q(&b, &rdf("value"), &plain("v"), &g1)];
+    for (dir, c) in [("i", &i18n_good), ("i", &i18n_bad), ("c", &compound), ("c", &no_direction), ("n", &compound)] {
+        for mode in ["11", "10"] {
+            ctx.emit(&render(mode, "0", dir, "0", c));
+            ctx.stats.bump("corpus");
+        }
+    }
+    ctx.emit(&render("11", "0", "n", "0", &[q(&s, &p, &iri("a"), &None)]));
+    ctx.stats.bump("corpus");
 }
 
 /// every dataset of at most `k` quads over a small vocabulary (the small-scope search of DESIGN 4.12,
